@@ -1,9 +1,9 @@
 package main
 
 import (
-	"math/rand"
 	"encoding/json"
 	"fmt"
+	"math/rand"
 	"os"
 	"regexp"
 	"strings"
